@@ -95,6 +95,13 @@ pub struct FaultLog {
     pub chans: BTreeMap<ChanKey, ChanStat>,
     pub fired: Vec<Value>,
     pub seq: usize,
+    /// adaptive adversary: first field element of every MAC-key opening stream seen so far, by (src helper, dst helper)
+    pub key_shares: BTreeMap<(usize, usize), [u8; 4]>,
+    /// chunks of a forge site that went by before the adversary could know the key
+    pub forge_too_early: u64,
+    pub forged: bool,
+    /// (src helper, dst helper, shard) of every MAC-key opening stream seen so far
+    pub key_seen_on: std::collections::BTreeSet<(usize, usize, usize)>,
 }
 
 pub struct Tamper {
@@ -213,7 +220,44 @@ impl StreamInterceptor for Tamper {
         st.chunks += 1;
         st.bytes += data.len();
         st.max_chunk = st.max_chunk.max(data.len());
+        // what a helper legitimately learns when the shuffle's MAC keys are opened: its own two shares (it sends them) and the
+        // missing one (it receives two copies). Keys are the same on all shards of a query.
+        if key.kind == "mpc" && key.gate.contains("reveal_m_a_c_key") && stream_pos == 0 && data.len() >= 4 {
+            log.key_shares.entry((key.src, key.dst)).or_insert([data[0], data[1], data[2], data[3]]);
+            log.key_seen_on.insert((key.src, key.dst, key.shard));
+        }
         for site in &self.sites {
+            if let Some(rec_len) = site.pattern.strip_prefix("forge_mac:").and_then(|a| a.parse::<usize>().ok()) {
+                // adaptive forgery on one of the corrupt helper's own streams: as soon as the helper can know MAC key 1, add
+                // (1, 0, .., 0 | key_1) to the first whole record of the chunk - a change every tag check is blind to
+                if site.chan != key || log.forged || rec_len < 8 {
+                    continue;
+                }
+                let c = key.src;
+                let own_l = log.key_shares.get(&(c, (c + 1) % 3)).copied();
+                let own_r = log.key_shares.get(&(c, (c + 2) % 3)).copied();
+                let missing = log.key_shares.get(&((c + 1) % 3, c)).or_else(|| log.key_shares.get(&((c + 2) % 3, c))).copied();
+                let start = (rec_len - stream_pos % rec_len) % rec_len;
+                match (own_l, own_r, missing) {
+                    (Some(a), Some(b), Some(m)) if start + rec_len <= data.len() => {
+                        let before = fnv_bytes(FNV0, data);
+                        data[start] ^= 1;
+                        for k in 0..4 {
+                            data[start + rec_len - 4 + k] ^= a[k] ^ b[k] ^ m[k];
+                        }
+                        log.forged = true;
+                        // did a peer already open its key share to the corrupt helper on THIS shard (i.e. before this shard's
+                        // tables were all delivered), or does the knowledge come from other shards of the query only?
+                        let (recipient, third) = (key.dst, 3 - c - key.dst);
+                        let by_recipient = log.key_seen_on.contains(&(recipient, c, key.shard));
+                        let by_third = log.key_seen_on.contains(&(third, c, key.shard));
+                        log.fired.push(json!({"chunk_len": data.len(), "before": format!("{before:016x}"), "after": format!("{:016x}", fnv_bytes(FNV0, data)), "seq": seq, "gate": key.gate,
+                            "forged_record_at": stream_pos + start, "key_opened_here_by_recipient": by_recipient, "key_opened_here_by_third_helper": by_third}));
+                    }
+                    _ => log.forge_too_early += 1,
+                }
+                continue;
+            }
             let same_chan = if site.chan.gate == "*" {
                 site.chan.kind == key.kind && site.chan.src == key.src && site.chan.dst == key.dst && site.chan.shard == key.shard
             } else {
